@@ -326,6 +326,14 @@ pub fn registry() -> Vec<Entry> {
     float_entries!(v, f32, "f32", WD32);
     float_entries!(v, f64, "f64", WD64);
     int_tree_entries(&mut v, if cfg!(feature = "with_serde") { 40 } else { 24 });
+    // boundary values of the one mutable type: the empty tree (a valid value: it compares, clones, prints and serialises; sampling
+    // it is an error, which is an outcome like any other for C14/C15; C03/C05 skip it) and a tree drained by pop and refilled
+    v.push(Entry { family: "WeightedTreeIndex", ft: "int", params: vec![], variant: "empty",
+        make: Box::new(|| crate::util::guarded(|| WeightedTreeIndex::<u32>::new(Vec::<u32>::new().iter()).ok()).ok().flatten().and_then(bt::<u32>)) });
+    v.push(Entry { family: "WeightedTreeIndex", ft: "f64", params: vec![], variant: "empty",
+        make: Box::new(|| crate::util::guarded(|| WeightedTreeIndex::<f64>::new(Vec::<f64>::new().iter()).ok()).ok().flatten().and_then(bt::<f64>)) });
+    v.push(Entry { family: "WeightedTreeIndex", ft: "int", params: vec![5.0], variant: "after-updates",
+        make: Box::new(|| crate::util::guarded(|| { let mut t = WeightedTreeIndex::<u32>::new([3u32, 1].iter()).ok()?; t.pop(); t.pop(); t.push(5).ok()?; Some(t) }).ok().flatten().and_then(bt::<u32>)) });
     ent!(v, "StandardGeometric", "int", "-", [], bn::<_, u64>(StandardGeometric));
     for (n, p, var) in [(10u64, 0.0f64, "Constant"), (10, 1.0, "Constant"), (10, 0.3, "Binv"), (10, 0.7, "Binv flipped"), (19, 0.5, "Binv"), (100, 0.05, "Binv"),
                         (100, 0.3, "Btpe"), (100, 0.305, "Btpe"), (100, 0.7, "Btpe flipped"), (1000, 0.5005, "Btpe"), (21, 0.5, "Btpe"), (1000, 0.5, "Btpe"), (1u64 << 62, 0.5, "Btpe"),
